@@ -41,7 +41,6 @@ package premium
 
 //@ func (*BBoltPremiumStore).GetDefaultRate
 //@ property C27
-//@ requires p != nil
 //@ ensures found: result1 == nil ==> (uf("hasRate", false, "default", asset, operation) && result0 != nil && result0.premiumRate != nil && result0.premiumRate.ppmValue == uf("storedRate", int64(0), "default", asset, operation))
 //@ ensures missing: (result1 != nil && errors.Is(result1, ErrRateNotFound)) ==> !uf("hasRate", false, "default", asset, operation)
 
@@ -49,20 +48,17 @@ package premium
 // else the built-in default table.
 //@ func (*Setting).GetRate
 //@ property C27
-//@ requires p != nil && p.store != nil
 //@ ensures peer-rate: (result1 == nil && uf("hasRate", false, peerID, asset, operation)) ==> (result0 != nil && result0.premiumRate != nil && result0.premiumRate.ppmValue == uf("storedRate", int64(0), peerID, asset, operation))
 //@ ensures global-rate: (result1 == nil && !uf("hasRate", false, peerID, asset, operation) && uf("hasRate", false, "default", asset, operation)) ==> (result0 != nil && result0.premiumRate != nil && result0.premiumRate.ppmValue == uf("storedRate", int64(0), "default", asset, operation))
 //@ ensures builtin-rate: (result1 == nil && !uf("hasRate", false, peerID, asset, operation) && !uf("hasRate", false, "default", asset, operation)) ==> (result0 != nil && result0.premiumRate != nil && result0.premiumRate.ppmValue == DefaultPremiumRate[asset][operation])
 
 //@ func (*Setting).GetDefaultRate
 //@ property C27
-//@ requires p != nil && p.store != nil
 //@ ensures global-rate: (result1 == nil && uf("hasRate", false, "default", asset, operation)) ==> (result0 != nil && result0.premiumRate != nil && result0.premiumRate.ppmValue == uf("storedRate", int64(0), "default", asset, operation))
 //@ ensures builtin-rate: (result1 == nil && !uf("hasRate", false, "default", asset, operation)) ==> (result0 != nil && result0.premiumRate != nil && result0.premiumRate.ppmValue == DefaultPremiumRate[asset][operation])
 
 //@ func (*Setting).Compute
 //@ property C27 C12
-//@ requires p != nil && p.store != nil
 //@ ensures peer-rate: (result1 == nil && uf("hasRate", false, peerID, asset, operation)) ==> result0 == int64(amtSat/1000000)*uf("storedRate", int64(0), peerID, asset, operation) + int64(amtSat%1000000)*uf("storedRate", int64(0), peerID, asset, operation)/1000000
 //@ ensures global-rate: (result1 == nil && !uf("hasRate", false, peerID, asset, operation) && uf("hasRate", false, "default", asset, operation)) ==> result0 == int64(amtSat/1000000)*uf("storedRate", int64(0), "default", asset, operation) + int64(amtSat%1000000)*uf("storedRate", int64(0), "default", asset, operation)/1000000
 //@ ensures builtin-rate: (result1 == nil && !uf("hasRate", false, peerID, asset, operation) && !uf("hasRate", false, "default", asset, operation)) ==> result0 == int64(amtSat/1000000)*DefaultPremiumRate[asset][operation] + int64(amtSat%1000000)*DefaultPremiumRate[asset][operation]/1000000
